@@ -77,6 +77,53 @@ fn main() {
         println!("{}", all.len());
         return;
     }
+    if args.len() >= 2 && args[1] == "fuzz-dict" {
+        // libFuzzer dictionary: every keyword of the three formats
+        let mut all: Vec<&str> = vec![];
+        for f in names::ALL_FMT {
+            all.extend(names::keywords(f.e()));
+        }
+        all.sort();
+        all.dedup();
+        for k in all {
+            let mut esc = String::new();
+            for b in k.bytes() {
+                if b == b'"' || b == b'\\' {
+                    esc.push('\\');
+                    esc.push(b as char);
+                } else if (0x20..0x7f).contains(&b) {
+                    esc.push(b as char);
+                } else {
+                    esc.push_str(&format!("\\x{:02x}", b));
+                }
+            }
+            println!("\"{}\"", esc);
+        }
+        return;
+    }
+    if args.len() >= 4 && args[1] == "fuzz-corpus" {
+        // seed corpus: byte 0 = format index, rest = a well-formed or mutated string
+        let dir = &args[2];
+        let n: usize = args[3].parse().unwrap_or(300);
+        let _ = std::fs::create_dir_all(dir);
+        let mut rng = rng::Rng::new(0xF022);
+        let gens: Vec<strings::StrGen> = names::ALL_FMT.iter().map(|f| strings::StrGen::new(*f)).collect();
+        for i in 0..n {
+            let fi = i % 3;
+            let g = &gens[fi];
+            let base = g.wellformed(&mut rng, 1 + i % 4);
+            let s = match i % 5 {
+                0 | 1 => base,
+                2 => g.mutate(&base, &mut rng),
+                3 => g.soup(&mut rng),
+                _ => g.deep_nesting()[i % 40].clone(),
+            };
+            let mut bytes = vec![fi as u8];
+            bytes.extend_from_slice(s.as_bytes());
+            let _ = std::fs::write(format!("{}/seed-{:04}", dir, i), bytes);
+        }
+        return;
+    }
     if args.len() < 2 {
         eprintln!("usage: nvmon <ID> --tier quick|thorough --seed N --shard i/n --out <dir> [--replay file]");
         std::process::exit(2);
@@ -147,7 +194,9 @@ fn main() {
     };
     guard::install_panic_hook();
     let per_call_limit = std::env::var("VERIF_CALL_LIMIT_S").ok().and_then(|s| s.parse().ok()).unwrap_or(20u64);
-    guard::start_watchdog(Duration::from_secs(per_call_limit), Some(hang_path));
+    if !cfg!(miri) {
+        guard::start_watchdog(Duration::from_secs(per_call_limit), Some(hang_path));
+    }
 
     if let Some(path) = replay {
         let text = std::fs::read_to_string(&path).unwrap_or_else(|e| {
